@@ -122,7 +122,17 @@ ORACLES = {"roundtrip": o_roundtrip, "pop": o_pop, "reject": o_reject, "keygen":
 
 
 def s_rt(big):
-    return st.fixed_dictionaries({"suite": sc.s_suite(), "sk": sc.s_sk(), "msg": s_msg(300, big=big).map(hx)})
+    base = st.fixed_dictionaries({"suite": sc.s_suite(), "sk": sc.s_sk(), "msg": s_msg(300, big=big).map(hx)})
+
+    def own_pk_prefix(t):
+        d, k = t
+        if k == 0:
+            return d
+        pk = blssig.sk_to_pk(d["sk"])
+        d = dict(d)
+        d["msg"] = hx([pk + unhx(d["msg"])[:40], pk, pk + pk][k - 1])
+        return d
+    return st.tuples(base, st.sampled_from([0, 0, 0, 0, 0, 1, 2, 3])).map(own_pk_prefix)
 
 
 def t_rt(ctx, shard, nshards, n):
